@@ -526,27 +526,29 @@ impl Session {
                                 let n = data.graph.nodes.len();
                                 let m = data.graph.edges.len();
                                 let quad = (n + m + 2).pow(2);
-                                let mut msg = BoundedString { s: String::new(), limit: 4096 + quad * 64, overflow: false };
-                                let disp = conflict.display_user_friendly(s);
-                                let _ = std::fmt::write(&mut msg, format_args!("{disp}"));
-                                if msg.overflow {
-                                    data.overflow = Some("display_user_friendly".into());
-                                }
-                                data.message = msg.s;
-                                // A provider's cancellation token may be raised after solve has
-                                // returned (deadline, Ctrl-C): rendering must still finish and say the same.
+                                // A provider's cancellation token may be raised after solve has returned
+                                // (deadline, Ctrl-C): rendering must still finish and say the same. The
+                                // cancelled rendering runs FIRST, while nothing is cached by an earlier one.
+                                let mut cancelled = BoundedString { s: String::new(), limit: 4096 + quad * 64, overflow: false };
+                                let cancelled_nodes;
                                 {
                                     let prev = s.provider().cancel.get();
                                     s.provider().cancel.set(Cancel::Sticky(0));
-                                    let mut again = BoundedString { s: String::new(), limit: 4096 + quad * 64, overflow: false };
                                     let g2 = conflict.graph(s);
+                                    cancelled_nodes = g2.graph.node_count();
                                     let disp2 = conflict.display_user_friendly(s);
-                                    let _ = std::fmt::write(&mut again, format_args!("{disp2}"));
+                                    let _ = std::fmt::write(&mut cancelled, format_args!("{disp2}"));
                                     s.provider().cancel.set(prev);
-                                    if again.s != data.message || g2.graph.node_count() != n {
-                                        data.overflow = Some("render-differs-with-raised-cancellation".into());
-                                    }
                                 }
+                                let mut msg = BoundedString { s: String::new(), limit: 4096 + quad * 64, overflow: false };
+                                let disp = conflict.display_user_friendly(s);
+                                let _ = std::fmt::write(&mut msg, format_args!("{disp}"));
+                                if msg.overflow || cancelled.overflow {
+                                    data.overflow = Some("display_user_friendly".into());
+                                } else if cancelled.s != msg.s || cancelled_nodes != n {
+                                    data.overflow = Some("render-differs-with-raised-cancellation".into());
+                                }
+                                data.message = msg.s;
                                 for (simplify, slot) in [(false, 0), (true, 1)] {
                                     let mut out = BoundedBytes { b: vec![], limit: 64 + 256 * (m + 1), overflow: false };
                                     let _ = graph.graphviz(&mut out, s.provider(), simplify);
